@@ -544,6 +544,8 @@ def check(run):
         if not cmut:
             continue
         for f in prog.all_functions():
+            if f.name in ('__init_subclass__', '__set_name__', '__class_getitem__'):
+                continue        # run while classes are being defined (import time), once per class: not state carried between calls
             # local aliases of a class-level container: `layout = cls._LAYOUT` ... `layout['burned'] = ...`
             calias = {}
             for n in ast.walk(f.node):
@@ -589,6 +591,8 @@ def check(run):
                 yield h, 'body', h.body
     nwrites = 0
     for f in prog.all_functions():
+        if f.name in ('__init_subclass__', '__set_name__', '__class_getitem__'):
+            continue            # run while classes are being defined (import time), once per class: not state carried between calls
         params = {a.arg for a in f.node.args.args + f.node.args.kwonlyargs} - {'cls', 'self'}
         restored = set()        # ids of AugAssign nodes that are the restoring half of an accepted pair
         verdicts = {}
